@@ -333,6 +333,110 @@ async fn run_history(dir: &Path, mats: &[Material], h: &[Op], mid: Option<(&'sta
     v
 }
 
+/// Server level: a real `Server` built the way bin/server.rs builds it (new_with_reloadable_tls on the reloader's
+/// shared acceptor) listens on loopback; after every step of a reload history a fresh TCP+TLS connection must be served
+/// the certificate the reloader has active, and connections made earlier keep working.
+async fn server_level(rep: &mut Report, mats: &[Material], base: &Path) {
+    use anytls_rs::server::Server;
+    let dir = base.join("server-level");
+    let _ = std::fs::create_dir_all(&dir);
+    let st = State { dir: dir.clone(), cert: dir.join("cert.pem"), key: dir.join("key.pem") };
+    std::fs::write(&st.cert, &mats[0].cert_pem).unwrap();
+    std::fs::write(&st.key, &mats[0].key_pem).unwrap();
+    let reloader = match CertReloader::new(CertReloaderConfig { cert_path: st.cert.clone(), key_path: st.key.clone(), watch_enabled: false, debounce_ms: 0, check_expiry: true, expiry_warning_days: 30 }) {
+        Ok(r) => r,
+        Err(e) => {
+            rep.machinery(format!("server-level reloader: {e}"));
+            return;
+        }
+    };
+    let port = crate::semi::free_port("127.0.0.1");
+    let addr = format!("127.0.0.1:{port}");
+    let server = Server::new_with_reloadable_tls("pw", reloader.get_acceptor_ref(), anytls_rs::padding::PaddingFactory::default(), None);
+    let addr2 = addr.clone();
+    let srv_task = tokio::spawn(async move {
+        let _ = server.listen(&addr2).await;
+    });
+    tokio::time::sleep(std::time::Duration::from_millis(150)).await;
+    let connect = |addr: String| async move {
+        let rec = Arc::new(Recorder(Mutex::new(None)));
+        let cfg = rustls::ClientConfig::builder().dangerous().with_custom_certificate_verifier(rec.clone()).with_no_client_auth();
+        let connector = tokio_rustls::TlsConnector::from(Arc::new(cfg));
+        let tcp = tokio::net::TcpStream::connect(&addr).await.map_err(|e| format!("connect: {e}"))?;
+        let tls = tokio::time::timeout(std::time::Duration::from_secs(5), connector.connect(rustls::pki_types::ServerName::try_from("localhost").unwrap(), tcp)).await.map_err(|_| "handshake timed out".to_string())?.map_err(|e| format!("handshake: {e}"))?;
+        let leaf = rec.0.lock().unwrap().clone().ok_or("no certificate presented".to_string())?;
+        Ok::<_, String>((leaf, tls))
+    };
+    let name_of = |leaf: &[u8]| mats.iter().find(|m| m.der == leaf).map(|m| m.name).unwrap_or("an unknown certificate");
+    // (disk operations, expected active material afterwards; None = the reload must fail and change nothing)
+    let history: Vec<(Vec<Op>, Option<usize>)> = vec![
+        (vec![], Some(0)),
+        (vec![Op::WriteCert(1), Op::WriteKey(1), Op::Reload], Some(1)),
+        (vec![Op::GarbageCert, Op::Reload], None),
+        (vec![Op::WriteCert(2), Op::WriteKey(2), Op::Reload], Some(2)),
+        (vec![Op::WriteCert(3), Op::WriteKey(3), Op::Reload], None),
+        (vec![Op::WriteCert(0), Op::WriteKey(0), Op::Reload], Some(0)),
+        (vec![Op::WriteCert(4), Op::Reload], Some(4)),
+        (vec![Op::WriteCert(1), Op::WriteKey(1), Op::Reload], Some(1)),
+        (vec![Op::WriteCert(5), Op::WriteKey(5), Op::Reload], Some(5)),
+    ];
+    let mut active = 0usize;
+    let mut kept: Vec<(usize, tokio_rustls::client::TlsStream<tokio::net::TcpStream>)> = vec![];
+    let mut done: Vec<String> = vec![];
+    for (ops, expect) in history {
+        let mut res = Ok(());
+        for op in &ops {
+            if *op == Op::Reload {
+                res = reloader.reload().map_err(|e| e.to_string());
+            } else {
+                apply_disk(op, &st, mats);
+            }
+        }
+        done.push(ops.iter().map(|o| op_str(o, mats)).collect::<Vec<_>>().join(","));
+        let what = format!("server level, after [{}]", done.join(" | "));
+        rep.case(Some(&what));
+        match (expect, &res) {
+            (Some(x), Ok(())) => active = x,
+            (None, Err(_)) => {}
+            (Some(_), Err(e)) => {
+                rep.violation("C18:valid-pair-refused", &format!("{what}: reload() failed: {e}"), json!({"engine": "LX", "history": done}));
+                break;
+            }
+            (None, Ok(())) => {
+                rep.violation("C18:reload-accepted-inconsistent-disk-state", &format!("{what}: reload() succeeded"), json!({"engine": "LX", "history": done}));
+                break;
+            }
+        }
+        match connect(addr.clone()).await {
+            Err(e) => {
+                rep.violation("C18:handshake-fails", &format!("{what}: a new connection to the server cannot be established: {e}"), json!({"engine": "LX", "history": done}));
+                break;
+            }
+            Ok((leaf, tls)) => {
+                if leaf != mats[active].der {
+                    let key = if res.is_err() { "C18:failed-reload-changed-state" } else { "C18:successful-reload-not-used" };
+                    rep.violation(key, &format!("{what}: a connection accepted by the server now is served {}, the active certificate is {}", name_of(&leaf), mats[active].name), json!({"engine": "LX", "history": done}));
+                    break;
+                }
+                kept.push((active, tls));
+            }
+        }
+    }
+    // connections established before the reloads still carry data (the server waits for the preamble: a write succeeds
+    // and the connection is not closed under us)
+    for (i, (_, tls)) in kept.iter_mut().enumerate() {
+        let alive = tls.write_all(&[0u8; 1]).await.is_ok() && tls.flush().await.is_ok();
+        let mut b = [0u8; 1];
+        let closed = matches!(tokio::time::timeout(std::time::Duration::from_millis(30), tls.read(&mut b)).await, Ok(Ok(0)) | Ok(Err(_)));
+        if !alive || closed {
+            rep.violation("C18:established-connection-disturbed", &format!("server level: connection #{i}, established before later reloads, was closed"), json!({"engine": "LX"}));
+            break;
+        }
+    }
+    srv_task.abort();
+    let _ = std::fs::remove_dir_all(&dir);
+}
+
 pub fn run(tier: Tier) -> i32 {
     let mut rep = Report::new("C18", tier, "fault_enumeration");
     let thorough = tier.is_thorough();
@@ -422,7 +526,11 @@ pub fn run(tier: Tier) -> i32 {
             }
         }
     }
+    {
+        let rt = tokio::runtime::Builder::new_multi_thread().worker_threads(2).enable_all().build().unwrap();
+        rt.block_on(server_level(&mut rep, &mats, &base));
+    }
     let _ = std::fs::remove_dir_all(&base);
     rep.sections.insert("jobs".into(), json!({"histories": n_jobs, "depth": depth, "alphabet": alphabet.iter().map(|o| op_str(o, &mats)).collect::<Vec<_>>(), "truncation_prefixes": clen + klen + 2, "sync_points": points}));
-    rep.finish("BX: every history of depth d (+ a final reload) over {write cert/key of pairs B, C, expired D, A2 (same key and serial as A), B2 (same serial as B) (each file alone), truncate cert/key, garbage, delete, reload}; every byte prefix of cert and key; a disk operation landing at each of 5 points inside a reload for 6 pre-states; after every step a real TLS handshake against the current acceptor, get_cert_info / count / last_reload compared with the previous snapshot; non-trivial = distinct history")
+    rep.finish("BX: every history of depth d (+ a final reload) over {write cert/key of pairs B, C, expired D, A2 (same key and serial as A), B2 (same serial as B) (each file alone), truncate cert/key, garbage, delete, reload}; every byte prefix of cert and key; a disk operation landing at each of 5 points inside a reload for 6 pre-states; after every step a real TLS handshake against the current acceptor, get_cert_info / count / last_reload compared with the previous snapshot; plus a real Server (new_with_reloadable_tls on the reloader's shared acceptor, as bin/server.rs builds it) on loopback whose fresh TCP+TLS connections are checked after every step of a 9-step reload history; non-trivial = distinct history")
 }
